@@ -12,10 +12,18 @@
 // crashrig additionally snapshots the three storage locations before/after
 // every component step (crash points).
 //
-// Model: Removed = regular objects whose removal COMPLETED, i.e. the shard's
-// deleteObjs ran all its steps for them (write-cache delete, metabase delete,
-// blob delete returned) in a GC pass or a direct Delete, and that nobody tried
-// to put again afterwards.
+// Model: Removed = regular objects whose removal COMPLETED and that nobody
+// stored anew since. A removal is complete when
+//   - the shard's deleteObjs ran all its steps for the object (its blob Delete
+//     returned, which comes after the write-cache and metabase deletes) inside a
+//     GC pass or a direct Delete (tap level, gives mid-operation precision), or
+//   - a GC pass returned: everything the metabase listed as garbage right
+//     before the pass (DB.GetGarbage, the pass's own input), or
+//   - a direct Shard.Delete of an object known to the metabase returned nil.
+//
+// A Put attempt takes the object out of Removed; if the Put is REJECTED
+// (ObjectAlreadyRemoved, rolled back) nothing was stored anew and the object
+// is tracked again.
 //
 // Oracle: for r ∈ Removed neither Shard.Exists nor Shard.Get may succeed
 //   - on the live shard after every later operation (and after every
@@ -53,8 +61,9 @@ import (
 const fpRace = "C09:flush-after-delete-leaves-orphan-blob-revived-by-resync"
 
 type snapMeta struct {
-	removed []oid.Address
-	raced   map[oid.Address]bool
+	removed  []oid.Address
+	raced    map[oid.Address]bool
+	resynced map[oid.Address]bool
 }
 
 type model struct {
@@ -124,13 +133,16 @@ func (m *model) complete(a oid.Address) {
 }
 
 func (m *model) snapMeta() any {
-	s := snapMeta{raced: map[oid.Address]bool{}}
+	s := snapMeta{raced: map[oid.Address]bool{}, resynced: map[oid.Address]bool{}}
 	for a := range m.removed {
 		s.removed = append(s.removed, a)
 	}
 	sort.Slice(s.removed, func(i, j int) bool { return s.removed[i].EncodeToString() < s.removed[j].EncodeToString() })
 	for a := range m.raced {
 		s.raced[a] = true
+	}
+	for a := range m.resynced {
+		s.resynced[a] = true
 	}
 	return s
 }
@@ -235,13 +247,12 @@ func TestC09Removed(t *testing.T) {
 			labels = map[string]bool{}
 			known  bool
 		)
-		fail := func(v violation, extra string) {
-			r.Lock()
+		// st is the model state the observation belongs to (the live one, or the
+		// one recorded with the crash snapshot)
+		fail := func(v violation, extra string, st snapMeta) {
 			// known class: an in-flight flush of the object overlapped its complete
 			// removal (orphan blob) AND a resync has turned the orphan into metadata
-			raced := m.raced[v.addr] && (m.resynced[v.addr] || strings.Contains(v.where, "resync"))
-			r.Unlock()
-			if raced {
+			if st.raced[v.addr] && (st.resynced[v.addr] || strings.Contains(v.where, "resync")) {
 				if rec.Known(fpRace) {
 					known = true
 					rec.Excluded(1)
@@ -257,8 +268,11 @@ func TestC09Removed(t *testing.T) {
 			if r.Sh == nil {
 				return
 			}
-			for _, v := range observe(r.Sh, m.snapMeta().(snapMeta).removed, where) {
-				fail(v, "")
+			r.Lock()
+			st := m.snapMeta().(snapMeta)
+			r.Unlock()
+			for _, v := range observe(r.Sh, st.removed, where) {
+				fail(v, "", st)
 			}
 		}
 		depth := 0
@@ -408,12 +422,7 @@ func TestC09Removed(t *testing.T) {
 					labels["crash-snapshot-inside-op-after-a-removal"] = true
 				}
 				for _, v := range aftermath(r, w, s) {
-					if sm.raced[v.addr] {
-						r.Lock()
-						m.raced[v.addr] = true
-						r.Unlock()
-					}
-					fail(v, fmt.Sprintf("\n  at %v", s))
+					fail(v, fmt.Sprintf("\n  at %v", s), sm)
 				}
 				os.RemoveAll(s.Dir)
 			}
